@@ -7,7 +7,7 @@
     Not modelled (exercised by the correspondence on <= 8 devices): that XLA's
     collectives implement rotation / concatenation as in Model/Sharding.v and
     that [shard_map] partitions as the specs say. *)
-From Dino Require Import Base.Ops Base.Sums Base.Inst Model.Sigma Model.Sharding Thm.Sharding.
+From Dino Require Import Base.Ops Base.Sums Base.Inst Model.Sigma Model.Sharding Thm.Sharding Gen.ShardingSrc Thm.ShardingSrc.
 From Coq Require Import Qcanon.
 Local Open Scope F_scope.
 
@@ -130,6 +130,45 @@ Proof.
   repeat split; auto. intros ->. congruence.
 Qed.
 
+(** The model is the source: the index expressions, operand offsets, ring
+    permutations, loop bounds, guards, comparison operators and index ranges that
+    tools/translate/gen_sharding.py regenerates from dinosaur/jax_numpy_utils.py
+    on every run (Gen/ShardingSrc.v) coincide with those of Model/Sharding.v for
+    every axis size (so a source change that only shows on more than 8 devices
+    still breaks this theorem). *)
+Theorem C07_allgather_matches_source :
+  src_complete = true /\
+  (forall n, Nat.eqb n 1 = src_ag_trivial (Z.of_nat n) /\ Nat.eqb (n mod 2) 1 = src_ag_reject (Z.of_nat n)) /\
+  (forall n d i, ag_chunk_index n d i = Z.to_nat (src_ag_chunk_index (Z.of_nat n) (Z.of_nat d) i)) /\
+  (forall q c j : nat, Z.of_nat (q * c + j) = (src_ag_slice_start (Z.of_nat q) (Z.of_nat c) + Z.of_nat j)%Z) /\
+  (forall i : Z, src_ag_fwd_arg i = (- i)%Z /\ src_ag_bwd_arg i = (i + 1)%Z) /\
+  (forall n j, perm_fwd n j = Z.to_nat (src_ag_perm_fwd (Z.of_nat n) (Z.of_nat j)) /\
+               perm_bwd n j = Z.to_nat (src_ag_perm_bwd (Z.of_nat n) (Z.of_nat j))) /\
+  src_ag_init_arg = 0%Z /\
+  (forall n, Z.of_nat 1 = src_ag_loop_lo (Z.of_nat n) /\ Z.of_nat (n / 2) = src_ag_loop_hi (Z.of_nat n)).
+Proof. exact allgather_matches_source. Qed.
+
+Theorem C07_reducescatter_matches_source :
+  src_complete = true /\
+  (forall n, Nat.eqb n 1 = src_rs_trivial (Z.of_nat n) /\ Nat.eqb (n mod 2) 1 = src_rs_reject (Z.of_nat n)) /\
+  (forall n d i, rs_chunk_index n d i = Z.to_nat (src_rs_chunk_index (Z.of_nat n) (Z.of_nat d) i)) /\
+  (forall q c j : nat, Z.of_nat (q * c + j) = (src_rs_slice_start (Z.of_nat q) (Z.of_nat c) + Z.of_nat j)%Z) /\
+  (forall i : Z, src_rs_fwd_arg i = (- i)%Z /\ src_rs_bwd_arg i = (i + 1)%Z) /\
+  (forall n j, perm_fwd n j = Z.to_nat (src_rs_perm_fwd (Z.of_nat n) (Z.of_nat j)) /\
+               perm_bwd n j = Z.to_nat (src_rs_perm_bwd (Z.of_nat n) (Z.of_nat j))) /\
+  (src_rs_init_fwd_arg = 0%Z /\ src_rs_init_bwd_arg = 1%Z) /\
+  (forall n, Z.of_nat 1 = src_rs_loop_lo (Z.of_nat n) /\ Z.of_nat (n / 2) = src_rs_loop_hi (Z.of_nat n)).
+Proof. exact reducescatter_matches_source. Qed.
+
+Theorem C07_cumsum_matches_source :
+  src_complete = true /\
+  (forall rv i d, pc_op rv i d = src_pc_op rv (Z.of_nat i) (Z.of_nat d)) /\
+  (forall rv n k, (0 < n)%nat ->
+     Z.of_nat (pc_index rv k) = (src_pc_range_lo rv (Z.of_nat n) + Z.of_nat k)%Z /\
+     Z.of_nat (n - 1) = (src_pc_range_hi rv (Z.of_nat n) - src_pc_range_lo rv (Z.of_nat n))%Z) /\
+  (forall rv, src_pc_last_index rv = if rv then 0%Z else (-1)%Z).
+Proof. exact cumsum_matches_source. Qed.
+
 (** Non-vacuity: a concrete 4-device ring over Qc with chunk size 2 (so the
     fori_loop really iterates), non-constant data: the model produces, on
     device 3, the full inner product; and the padded-shape example of the
@@ -162,4 +201,7 @@ Print Assumptions C07_modal_shape_divisible.
 Print Assumptions C07_shapes_divisible.
 Print Assumptions C07_vertical_pad_crop.
 Print Assumptions C07_einsum_subscripts_sound.
+Print Assumptions C07_allgather_matches_source.
+Print Assumptions C07_reducescatter_matches_source.
+Print Assumptions C07_cumsum_matches_source.
 Print Assumptions C07_hyps_satisfiable.
